@@ -619,8 +619,30 @@ theorem literalAfterLoop_sound (e : Env) (k : Nat) (p : Pat) (sl : SymLal) (h : 
     alternation with a common prefix, loop with a minimum, capture) stands where the loop's run ends. -/
 theorem literalAfterLoop_prefix_sound (e : Env) (p : Pat) (P : Pred) (w : List Nat) (h : lalPrefixOf p = some (P, w)) :
     w ≠ [] ∧ ∀ p0, p0 ≤ e.text.length → attemptSpan e p p0 ≠ none →
-      ∃ kk, p0 ≤ kk ∧ (∀ j, p0 ≤ j → j < kk → memAt (P.test e) e.text j = true) ∧ ∃ t, e.text.drop kk = w ++ t :=
-  lalPrefixOf_fact e p P w h
+      ∃ kk, p0 ≤ kk ∧ (∀ j, p0 ≤ j → j < kk → memAt (P.test e) e.text j = true) ∧ ∃ t, e.text.drop kk = w ++ t := by
+  obtain ⟨h1, h2⟩ := lalPrefixOf_at e p P w h
+  exact ⟨h1, fun p0 _ hne => at_attempt e p _ h2 p0 hne⟩
+
+/-- **The facts of the body of a leading positive lookahead are facts of the pattern's match starts**
+    (`newFindOptimizations` publishes the body's `FindOptimizations` when the pattern itself yields
+    nothing): the landmark chain, the literal after the loop (character tests) and its prefix form,
+    computed from the body `b = leadLook p`, hold at every position where `p` matches. -/
+theorem look_loopFacts_sound (e : Env) (p b : Pat) (kf : Bool) (hlook : leadLook p = (some b, kf)) (k : Nat) :
+    (∀ sc, chainOf k b = some sc → ∃ l ls, sc.landmarks = l :: ls ∧
+      LandmarkFact (sc.loop.test e) (l.map (SymAlt.toLm e)) (lmOf e ls) e.text (attemptSpan e p)) ∧
+    (∀ sl, lalOf k b = some sl → ∀ p0, p0 ≤ e.text.length → attemptSpan e p p0 ≠ none → LalAt e sl p0) ∧
+    (∀ P w, lalPrefixOf b = some (P, w) → ∀ p0, p0 ≤ e.text.length → attemptSpan e p p0 ≠ none → PrefAt e P w p0) := by
+  refine ⟨?_, ?_, ?_⟩
+  · intro sc h
+    obtain ⟨l, ls, hl, hat⟩ := chainOf_at e k b sc h
+    exact ⟨l, ls, hl, fun p0 _ hne => look_attempt e p b kf hlook _ hat p0 hne⟩
+  · intro sl h p0 _ hne
+    exact look_attempt e p b kf hlook _ (lalOf_at e k b sl h) p0 hne
+  · intro P w h p0 _ hne
+    exact look_attempt e p b kf hlook _ (lalPrefixOf_at e b P w h).2 p0 hne
+
+/-- `(?=[xy]*ab)…`: the facts of the lookahead body `[xy]*ab` -/
+example : leadLook (.seq (.look false false lalPat) (.chr (.one 120 false))) = (some lalPat, false) := rfl
 
 /-- what leg L checks of a published `LiteralAfterLoop` against Lean's character tests: the string's
     characters (under the comparison the finder selects), or `Chars`, or `Char`, include the tests -/
@@ -635,12 +657,11 @@ def LalIncluded (e : Env) (lower : Nat → Nat) (l : LitAfterLoop) (lit : List P
 /-- **A published `LiteralAfterLoop` that includes Lean's record is sound**: its loop set contains the
     loop's test and its literal (string / `Chars` / `Char`) includes the character tests — then
     `LitAfterLoopFact`, the hypothesis of `C03.finder_literalAfterLoop_sound`, holds. -/
-theorem published_literalAfterLoop_sound (e : Env) (k : Nat) (p : Pat) (sl : SymLal) (h : lalOf k p = some sl)
-    (lower : Nat → Nat) (l : LitAfterLoop) (S : Nat → Bool)
-    (hS : ∀ r, sl.loop.test e r = true → S r = true) (hinc : LalIncluded e lower l sl.lit) :
-    LitAfterLoopFact lower l S e.text (attemptSpan e p) := by
-  intro p0 hp0 hne
-  obtain ⟨kk, k1, k2, k3⟩ := literalAfterLoop_sound e k p sl h p0 hp0 hne
+theorem lalAt_included (e : Env) (sl : SymLal) (lower : Nat → Nat) (l : LitAfterLoop) (S : Nat → Bool)
+    (hS : ∀ r, sl.loop.test e r = true → S r = true) (hinc : LalIncluded e lower l sl.lit)
+    (p0 : Nat) (hat : LalAt e sl p0) :
+    ∃ k, p0 ≤ k ∧ l.litAt lower e.text k = true ∧ ∀ j, p0 ≤ j → j < k → memAt S e.text j = true := by
+  obtain ⟨kk, k1, k2, k3⟩ := hat
   refine ⟨kk, k1, ?_, ?_⟩
   · unfold LalIncluded at hinc
     unfold LitAfterLoop.litAt
@@ -680,6 +701,21 @@ theorem published_literalAfterLoop_sound (e : Env) (k : Nat) (p : Pat) (sl : Sym
     cases ht : e.text[j]? with
     | none => rw [ht] at this; simp at this
     | some t => rw [ht] at this; simp only []; exact hS t this
+
+theorem published_literalAfterLoop_sound (e : Env) (k : Nat) (p : Pat) (sl : SymLal) (h : lalOf k p = some sl)
+    (lower : Nat → Nat) (l : LitAfterLoop) (S : Nat → Bool)
+    (hS : ∀ r, sl.loop.test e r = true → S r = true) (hinc : LalIncluded e lower l sl.lit) :
+    LitAfterLoopFact lower l S e.text (attemptSpan e p) :=
+  fun p0 hp0 hne => lalAt_included e sl lower l S hS hinc p0 (lalOf_fact e k p sl h p0 hp0 hne)
+
+/-- the same when the record comes from the body of a leading positive lookahead -/
+theorem published_look_literalAfterLoop_sound (e : Env) (p b : Pat) (kf : Bool) (hlook : leadLook p = (some b, kf))
+    (k : Nat) (sl : SymLal) (h : lalOf k b = some sl)
+    (lower : Nat → Nat) (l : LitAfterLoop) (S : Nat → Bool)
+    (hS : ∀ r, sl.loop.test e r = true → S r = true) (hinc : LalIncluded e lower l sl.lit) :
+    LitAfterLoopFact lower l S e.text (attemptSpan e p) :=
+  fun p0 hp0 hne => lalAt_included e sl lower l S hS hinc p0
+    ((look_loopFacts_sound e p b kf hlook k).2.1 sl h p0 hp0 hne)
 
 /-- `[xy]*ab…`: loop {x, y}, literal tests `a`, `b`; the published record `String = "ab"` includes them -/
 def lalPat : Pat :=
